@@ -14,6 +14,7 @@ use fpdec::{
     DivRounded, MulRounded, Quantize, Round, RoundingMode,
 };
 
+mod feat;
 mod fmt_table;
 mod forms;
 
@@ -75,7 +76,7 @@ fn shex(s: &str) -> String {
     }
     r
 }
-fn unhex_bytes(s: &str) -> Vec<u8> {
+pub fn unhex_bytes(s: &str) -> Vec<u8> {
     if s == "-" {
         return vec![];
     }
@@ -330,6 +331,7 @@ fn run(line: &str) -> String {
         "ii" => by_ty!(ty, ii_body, op, hex(a[0]), hex(a[1]), nn(2)),
         "un" => un(op, ty, dec(a[0], a[1]), &a[2..]),
         "frm" => forms::run(op, ty, a),
+        "ft" => feat::run(op, a),
         "thr" => forms::threads(op, a),
         "fl" => match op {
             "f64" => format!("F {:x}", f64::from(dec(a[0], a[1])).to_bits()),
